@@ -20,7 +20,7 @@ def main():
         for k, v in common.STD.items():
             ov[k] = s.pkgpath(hd) + "." + v
     inits = [s.pkgpath(hd)] + ([] if hd == "schema" else ["github.com/olive-io/bpmn/schema"])
-    r = Run(prog, ent, K=K, verbose=True, overrides=ov, inits=inits)
+    r = Run(prog, ent, K=K, verbose=True, overrides=ov, inits=inits, spawn_limits={"exclusiveGateway).run": 1, "inclusiveGateway).run": 1})
     t0 = time.time()
     r.execute()
     m = r.m
